@@ -39,5 +39,28 @@ theorem bind_panic {m : M β α} {f : α → M β γ} {s s' : St β} {p : String
 
 @[simp] theorem lift_ok_bind (a : α) (f : α → M β γ) (s : St β) : ((M.lift (.ok a) : M β α) >>= f) s = f a s := rfl
 
+theorem bind_assoc (m : M β α) (f : α → M β γ) (g : γ → M β δ) :
+    (m >>= f) >>= g = m >>= fun a => f a >>= g := by
+  funext s
+  simp only [bind_apply]
+  cases h : m s with
+  | mk o s1 => cases o <;> rfl
+
+theorem pure_bind (a : α) (f : α → M β γ) : (Pure.pure a : M β α) >>= f = f a := rfl
+
+theorem bind_pure (m : M β α) : m >>= (fun a => (Pure.pure a : M β α)) = m := by
+  funext s
+  simp only [bind_apply]
+  cases h : m s with
+  | mk o s1 => cases o <;> rfl
+
+theorem lift_ok (a : α) : (M.lift (.ok a) : M β α) = Pure.pure a := rfl
+
+theorem bind_congr {m : M β α} {f g : α → M β γ} (h : ∀ a, f a = g a) : m >>= f = m >>= g := by
+  have : f = g := funext h
+  rw [this]
+
+theorem map_eq_bind (f : α → γ) (m : M β α) : f <$> m = m >>= fun a => Pure.pure (f a) := rfl
+
 end M
 end Cel
